@@ -54,6 +54,33 @@ pub fn run() {
                             Err(_) => "timeout".to_string(),
                         }
                     }
+                    // the leader's side of a publish / removal that a follower forwarded (raft::cluster::handle_route)
+                    ["rpub", k, c] => {
+                        let req = rnacos::raft::cluster::model::RouterRequest::ConfigSet {
+                            key: format!("{}\u{2}DEFAULT_GROUP\u{2}", k),
+                            value: Arc::new(c.to_string()),
+                            op_user: None,
+                            config_type: None,
+                            desc: None,
+                            extend_info: Default::default(),
+                        };
+                        match tokio::time::timeout(std::time::Duration::from_secs(8), rnacos::raft::cluster::handle_route(a, req)).await {
+                            Ok(Ok(_)) => "ok".to_string(),
+                            Ok(Err(_)) => "err".to_string(),
+                            Err(_) => "timeout".to_string(),
+                        }
+                    }
+                    ["rdel", k] => {
+                        let req = rnacos::raft::cluster::model::RouterRequest::ConfigDel {
+                            key: format!("{}\u{2}DEFAULT_GROUP\u{2}", k),
+                            extend_info: Default::default(),
+                        };
+                        match tokio::time::timeout(std::time::Duration::from_secs(8), rnacos::raft::cluster::handle_route(a, req)).await {
+                            Ok(Ok(_)) => "ok".to_string(),
+                            Ok(Err(_)) => "err".to_string(),
+                            Err(_) => "timeout".to_string(),
+                        }
+                    }
                     ["get", k] => match a.config_addr.send(ConfigCmd::GET(ConfigKey::new(k, "DEFAULT_GROUP", ""))).await {
                         Ok(Ok(ConfigResult::Data { value, .. })) => format!("val {}", value),
                         _ => "none".to_string(),
